@@ -30,6 +30,24 @@ var repoDir = "/repo"
 
 var replayTemplates = []*replayTemplate{
 	{
+		name: "tlstcp_dialer_keepalive_race.go.tmpl",
+		match: func(o *Obligation) bool {
+			return (o.Kind == "guard.read" || o.Kind == "guard.write") && strings.HasPrefix(o.Func, "(*transport/tlstcp.dialer).") && strings.Contains(o.Name, ":dialer.*d")
+		},
+		run: func(g *Gen, o *Obligation, model map[string]string) (bool, string) {
+			return runReplayArgs("transport/tlstcp", "tlstcp_dialer_keepalive_race.go.tmpl", map[string]string{}, "TestZZReplayTLSDialerKeepAliveRace", "-race")
+		},
+	},
+	{
+		name: "tcp_listener_keepalive_race.go.tmpl",
+		match: func(o *Obligation) bool {
+			return (o.Kind == "guard.read" || o.Kind == "guard.write") && strings.HasPrefix(o.Func, "(*transport/tcp.listener).") && strings.HasSuffix(o.Name, ":listener.lc")
+		},
+		run: func(g *Gen, o *Obligation, model map[string]string) (bool, string) {
+			return runReplayArgs("transport/tcp", "tcp_listener_keepalive_race.go.tmpl", map[string]string{}, "TestZZReplayListenerKeepAliveRace", "-race")
+		},
+	},
+	{
 		name: "ws_options_race.go.tmpl",
 		match: func(o *Obligation) bool {
 			return (o.Kind == "guard.read" || o.Kind == "guard.write") && (strings.HasPrefix(o.Func, "(*transport/ws.listener).") || strings.HasPrefix(o.Func, "(*transport/ws.dialer).")) && (strings.Contains(o.Name, ".opts") || strings.Contains(o.Name, ".ug"))
